@@ -136,8 +136,11 @@ theorem shapeNumeric_accepts (d : Cls) (e : EndKind) (m : Mode) (he : endExact e
 /-! ## shape 3: `^[A]([B]{0,n}[A'])?<end>`  (LABEL_REGEX) -/
 
 def shapeLabel (a b a' : Cls) (n : Nat) (e : EndKind) : LinearRegex :=
-  [.atom .bos, .atom (.cls a 1 (some 1)),
-   .opt [.cls b 0 (some n), .cls a' 1 (some 1)], .atom (.eos e)]
+  [.atom (.cls a 1 (some 1)), .opt [.cls b 0 (some n), .cls a' 1 (some 1)], .atom (.eos e)]
+
+/-- the same with the (redundant under `match` / `fullmatch`) leading `^` -/
+def shapeLabelBos (a b a' : Cls) (n : Nat) (e : EndKind) : LinearRegex :=
+  .atom .bos :: shapeLabel a b a' n e
 
 theorem matchItems_opt2 (b a' : Cls) (n : Nat) (is : List Item) (k : Bool → Str → Bool)
     (a0 : Bool) (s : Str) :
@@ -153,7 +156,7 @@ theorem shapeLabel_accepts (a b a' : Cls) (n : Nat) (e : EndKind) (m : Mode)
           (r.isEmpty || (decide (r.length ≤ n + 1) && allButLast (inCls b) (inCls a') r)) := by
   rw [pyMatch_not_search _ _ (not_search_of_endExact he)]
   have hk := kEnd_endsOnly e m he
-  rw [shapeLabel, matchItems_bos, matchItems_cls, rep_one]
+  rw [shapeLabel, matchItems_cls, rep_one]
   cases s with
   | nil => rfl
   | cons x r =>
@@ -172,5 +175,11 @@ theorem shapeLabel_accepts (a b a' : Cls) (n : Nat) (e : EndKind) (m : Mode)
         cases r1 <;> simp
     rw [rep_bounded_last b (inCls a') _ hk2, hk false r]
     cases r <;> simp [allButLast, Bool.or_comm]
+
+theorem shapeLabelBos_accepts (a b a' : Cls) (n : Nat) (e : EndKind) (m : Mode)
+    (he : endExact e m = true) (s : Str) :
+    pyMatch (shapeLabelBos a b a' n e) m s = pyMatch (shapeLabel a b a' n e) m s := by
+  rw [pyMatch_not_search _ _ (not_search_of_endExact he),
+    pyMatch_not_search _ _ (not_search_of_endExact he), shapeLabelBos, matchItems_bos]
 
 end Aiorpcx.C18
